@@ -50,6 +50,8 @@ theorem c06_rejected_call_noop (s : Store) (fsHas : Nat → Bool) (op : Op) (k :
   | purge upto =>
     simp only [Store.call] at h
     split at h
+    · simp only [Prod.mk.injEq] at h; exact ⟨h.2.1.symm, h.2.2.symm⟩
+    split at h
     · simp at h
     · split at h
       · split at h <;> simp at h
@@ -59,12 +61,34 @@ theorem c06_rejected_call_noop (s : Store) (fsHas : Nat → Bool) (op : Op) (k :
 
 /-- A batch `append` applies its accepted prefix; the first rejected entry
 leaves no trace: the store is exactly the one reached by the entries before
-it, with exactly their effects. -/
+it, with exactly their effects. (D12: an entry whose index is u64::MAX is
+refused before validation with `InvalidInput` — see
+`c06_batch_refused_entry_noop` — so the error kind is the state's verdict only
+for the other ids, `hidx`.) -/
 theorem c06_batch_rejected_entry_noop (fsHas : Nat → Bool) (id : LogId) (p : Bytes)
     (rest : List (LogId × Bytes)) (s : Store) (seg : Seg) (effs : List Eff) (k : ErrKind)
+    (hidx : id.index + 1 ≠ U64)
     (h : s.st.apply (.append id p) = .err k) :
     Store.appendBatch fsHas ((id, p) :: rest) s seg effs = (.err k, s, effs) := by
-  simp [Store.appendBatch, c06_rejected_record_noop s fsHas _ k h]
+  simp [Store.appendBatch, hidx, c06_rejected_record_noop s fsHas _ k h]
+
+/-- D12: an entry with index u64::MAX is refused with `InvalidInput` and leaves
+no trace either, whatever the state would have said. -/
+theorem c06_batch_refused_entry_noop (fsHas : Nat → Bool) (id : LogId) (p : Bytes)
+    (rest : List (LogId × Bytes)) (s : Store) (seg : Seg) (effs : List Eff)
+    (hidx : id.index + 1 = U64) :
+    Store.appendBatch fsHas ((id, p) :: rest) s seg effs = (.err .invalidInput, s, effs) :=
+  appendBatch_cons_refused_D12 fsHas id p rest s seg effs hidx
+
+/-- Either way: whenever the state rejects the entry, the batch stops with SOME
+error, the store reached so far and the effects so far. -/
+theorem c06_batch_rejected_entry_noop_any (fsHas : Nat → Bool) (id : LogId) (p : Bytes)
+    (rest : List (LogId × Bytes)) (s : Store) (seg : Seg) (effs : List Eff) (k : ErrKind)
+    (h : s.st.apply (.append id p) = .err k) :
+    ∃ k', Store.appendBatch fsHas ((id, p) :: rest) s seg effs = (.err k', s, effs) := by
+  by_cases hidx : id.index + 1 = U64
+  · exact ⟨_, c06_batch_refused_entry_noop fsHas id p rest s seg effs hidx⟩
+  · exact ⟨_, c06_batch_rejected_entry_noop fsHas id p rest s seg effs k hidx h⟩
 
 /-! ### Same state ⇒ same verdict as the reference log -/
 
